@@ -74,6 +74,7 @@ pub struct Broker {
     /// transmission arrived here, in this broker session
     pub accepted_requests: u32,
     pub received_requests: u32,
+    pub unconditional_limits: bool,
     pub mps_shrinks_applied: u32,
     pub mps_shrinks_withheld: u32,
     pub outstanding: Vec<Outst>,
@@ -116,6 +117,7 @@ impl Broker {
             epoch_uncertain: false,
             accepted_requests: 0,
             received_requests: 0,
+            unconditional_limits: false,
             mps_shrinks_applied: 0,
             mps_shrinks_withheld: 0,
             outstanding: Vec::new(),
@@ -327,6 +329,9 @@ impl Broker {
     /// value stays in force.
     fn effective_max_packet(&self, resumed: bool) -> Option<u32> {
         let planned = self.plan.props.max_packet;
+        if self.unconditional_limits {
+            return planned;
+        }
         let (true, Some(prev)) = (resumed, self.announced_max_packet) else { return planned };
         let shrinks = match (planned, prev) {
             (Some(m), Some(q)) => m < q,
@@ -1073,6 +1078,7 @@ pub fn run_case_with(case: &Case, tweak: impl FnOnce(&mut World)) -> Trace {
     w.jitter = case.cfg.jitter_us;
     w.tx_len = case.cfg.tx;
     w.broker.ping_delays = case.cfg.ping_delays_us.clone();
+    w.broker.unconditional_limits = case.cfg.unconditional_limits;
     tweak(&mut w);
     let r = std::panic::catch_unwind(std::panic::AssertUnwindSafe(|| interpret(case, &mut w)));
     if let Err(p) = r {
